@@ -45,8 +45,6 @@ def brief(term: dict) -> str:
 
 
 def culprit(ev: dict) -> str:
-    if ev["src"] == "sub":
-        return "classfield:" + brief(ev["case"])
     if ev["ak"] == "float":
         if ev["oc"] == "error" and ev["nctx"] == "plain" and ev["exc"] == "NameError":
             return "export-without-pytest-import"
@@ -82,8 +80,14 @@ def design(ctx: Ctx) -> None:
 def observe(ctx: Ctx) -> tuple[list[dict], list[dict]]:
     cases = ctx.behaviours("MC_Literals", "MC_Literals_assert.cfg" if ctx.quick else "MC_Literals_assert_thorough.cfg")
     cases.sort(key=lambda c: json.dumps(c, sort_keys=True))
-    traces = [{"ev": ad.check_value(c["v"], c["pos"], c["m"], ctx.seed, ctx.work)} for c in cases]
-    return cases, traces
+    # one trace per observed event (ctx.validate reports one violation per clause and trace)
+    owners, traces = [], []
+    for c in cases:
+        for e in ad.check_value(c["v"], c["pos"], c["m"], ctx.seed, ctx.work):
+            owners.append(c)
+            traces.append({"ev": [e]})
+    ctx.notes["cases"] = len(cases)
+    return owners, traces
 
 
 def run(ctx: Ctx) -> None:
@@ -117,7 +121,6 @@ def run(ctx: Ctx) -> None:
                 n_events += 1
                 ctx.nontriv((json.dumps(e["case"], sort_keys=True), e["pos"], e["m"], e["ak"], e["src"], e["nctx"]))
     ctx.evaluations = n_events
-    ctx.notes["cases"] = len(cases)
     ctx.notes["cases_without_assertion"] = sum(1 for t in traces if t["ev"][0]["op"] == "noassert")
     verdicts = ctx.validate("LiteralsTrace", traces)
     seen_drift = set()
